@@ -1,8 +1,10 @@
 (* Property C04 - a recording starts iff motion persisted, the window is open and storage is OK. *)
+From Coq Require Import String.
+From TR Require Import model.GoSem model.FileRec model.FileExt translated.FileRecorder proofs.TieFile.
 From Coq Require Import List ZArith Bool Lia ZifyBool.
 From TR Require Import model.Ring model.Processor model.ProcAbs model.ProcSpec model.Window proofs.ProcS0304.
 (* constants and wiring read from the Go sources on every run *)
-From TR Require Import model.ProcExt proofs.TieCorollaries.
+From TR Require Import model.ProcExt proofs.TieProcCorollaries.
 From TR Require Import proofs.FactsProc proofs.FactsDeps.
 Import ListNotations.
 Open Scope Z_scope.
@@ -72,3 +74,13 @@ Theorem C04_source_tie : forall c fm fc ft evs,
     1 <= p_size c ->
     src_psteps c fm fc ft evs = psteps c fm fc ft evs.
 Proof. exact src_psteps_eq. Qed.
+
+(* ---- source tie: the storage gate as cptvfilerecorder.go computes it now ----
+   CheckCanRecord fails iff statfs fails or the space AVAILABLE to the daemon, f_bavail * f_bsize in whole MiB
+   (truncating), is below min-disk-space-mb. *)
+Theorem C04_source_disk_gate : forall r w,
+    0 <= fw_bavail w -> 0 <= fw_bsize w < 2 ^ 64 ->
+    CPTVFileRecorder_CheckCanRecord fext r w =
+      Ok (r, if fw_statfs_err w then 1
+             else if Z.quot (Z.quot (fw_bavail w * fw_bsize w) 1024) 1024 >=? CPTVFileRecorder_minDiskSpace r then 0 else 1) w.
+Proof. exact tie_CheckCanRecord. Qed.
